@@ -116,8 +116,10 @@ func (b *flattenBuffer) EndBatch(end edge.EndBatchMessage) error {
 		if err != nil {
 			return err
 		}
-		if err := b.emitBatchPoint(b.time, fields); err != nil {
-			return err
+		if len(fields) > 0 {
+			if err := b.emitBatchPoint(b.time, fields); err != nil {
+				return err
+			}
 		}
 		b.points = b.points[0:0]
 	}
